@@ -19,11 +19,11 @@ ASSUMPTIONS = ['both axes imply one propagation wavelength (isotropic dx*du, or 
 PLAN = {'quick': {'gen': 8}, 'thorough': {'gen': 16, 'tests': 1, 'docs': 1}}
 REQUIRED_BUCKETS = ['grid:even', 'grid:odd', 'pupil:even', 'pupil:odd', 'pupil-parity!=grid-parity', 'os=1', 'os=2', 'os=3',
                     'shape:none', 'shape:explicit', 'aniso', 'scratch:exact', 'scratch:larger', 'scratch:dirty',
-                    'scratch:too-small', 'shape:too-large', 'tilted']
+                    'scratch:too-small', 'shape:too-large', 'tilted', 'segmented', 'segmented:bbox-overlap', 'scratch:non-finite']
 REQUIRED_ANCHORS = ['anchor:_fft_shape', 'anchor:_fft2', 'anchor:_has_tilt', 'anchor:scratch_shape', 'probe:propagate_fft',
                     'probe:propagate_dft']
 REQUIRED_ORACLES = ['fft=dft', 'fft=model', 'scratch=transparent', 'scratch:exact-accepted', 'scratch:too-small-refused',
-                    'shape:too-large-refused', 'tilt-refused', 'fft:meta']
+                    'shape:too-large-refused', 'tilt-refused', 'fft:meta', 'fft=fraunhofer']
 
 
 def anchors(lentil):
@@ -38,7 +38,8 @@ def dft_oracle(ctx, args, kwargs, result, exc, pre):
 
 
 def fft_probe(ctx, args, kwargs, result, exc, pre):
-    pass     # counted as a probe (reach); decisions are taken by the relational driver
+    # every FFT propagation (padded or through a scratch buffer) against the Fraunhofer sum on its own grid
+    propmodel.check_fft(ctx, 'propagate_fft', propmodel.bind_fft(args, kwargs), result, exc)
 
 
 def install(ctx, lentil):
@@ -103,7 +104,15 @@ def workload(ctx, lentil):
         desc = {'pupil': list(pshape), 'grid': G, 'os': os_, 'delta': delta, 'wl': wl, 'z': z, 'dx': dx, 'du': du,
                 'shape': shape, 'data': probe.fp_array(amp)[:10]}
         ctx.case(desc, bks, nontrivial=int(np.count_nonzero(amp)) > 1)
-        w = lentil.Wavefront(wl) * lentil.Pupil(amplitude=amp, opd=opd, pixelscale=dx, focal_length=z)
+        segkw = {}
+        if i % 3 == 1:
+            # segmented pupil: several fields (bounding boxes usually overlapping) have to be summed into the padded array
+            segs, _ = gen.partition(rng, A, int(rng.integers(2, 6)))
+            segkw['mask'] = segs.astype(float)
+            ctx.bucket('segmented')
+            if len(segs) > 1 and gen.bboxes_overlap(segs):
+                ctx.bucket('segmented:bbox-overlap')
+        w = lentil.Wavefront(wl) * lentil.Pupil(amplitude=amp, opd=opd, pixelscale=dx, focal_length=z, **segkw)
         kw = dict(oversample=os_)
         if shape is not None:
             kw['shape'] = shape
@@ -195,6 +204,11 @@ def workload(ctx, lentil):
             if mode == 1:
                 buf[:] = rng.normal(size=big) + 1j * rng.normal(size=big)
             run_scratch(buf, 'larger-dirty' if mode == 1 else 'larger', 'scratch:dirty' if mode == 1 else 'scratch:larger')
+        if mode == 2:
+            # "any prior content": uninitialised memory may hold NaN / inf
+            big = (G[0] + int(rng.integers(0, 4)), G[1] + int(rng.integers(0, 4)))
+            buf = np.full(big, [np.nan, np.inf, complex(np.nan, -np.inf)][i % 3], complex)
+            run_scratch(buf, 'non-finite', 'scratch:non-finite')
         if dirty is not None and dirty.shape[0] > G[0] and dirty.shape[1] > G[1]:
             run_scratch(dirty, 'reused', 'scratch:dirty')        # content left by earlier, differently sized cases
         if dirty is None or rng.random() < 0.2:
